@@ -149,6 +149,15 @@ class ClassRef:
 
 
 @dataclass(frozen=True)
+class Closure:
+    """A lambda or nested def with the values of its free variables at definition time."""
+    fn: object = field(compare=False)      # synthetic FuncInfo
+    label: str = ''                        # 'lambda@<line>' | 'localfunc:<name>'
+    captured: tuple = ()                   # ((name, value), ...)
+    definer: str = ''                      # qualname of the defining function
+
+
+@dataclass(frozen=True)
 class ExtRef:
     dotted: str
 
@@ -359,6 +368,8 @@ def is_constant_value(v, depth=0):
         return False
     if isinstance(v, (FuncRef, ClassRef, ExtRef)):
         return True
+    if isinstance(v, Closure):
+        return not v.captured or all(is_constant_value(x, depth + 1) for _, x in v.captured)
     return False
 
 
@@ -413,6 +424,10 @@ class Hooks:
         """Return None or an iterable of Outcome for the whole loop statement."""
         return None
 
+    def stored(self, interp, obj, idx, val, st):
+        """Called after a subscript store / delete was recorded; may return a replacement state."""
+        return None
+
     def field(self, obj, name, st):
         return None
 
@@ -459,9 +474,9 @@ class Interp:
         return self.stack[-1]
 
     # ------------------------------------------------------------------ function calls
-    def call_function(self, fn, args, kwargs, st, self_obj=None):
+    def call_function(self, fn, args, kwargs, st, self_obj=None, closure_env=None):
         params = fn.params
-        env = {}
+        env = dict(closure_env or {})
         pos = list(params)
         deco = {ast.unparse(d) for d in getattr(fn.node, 'decorator_list', [])}
         if fn.cls is not None and 'classmethod' in deco and pos:
@@ -475,17 +490,27 @@ class Interp:
             pos = pos[1:]
         if len(args) > len(pos) and not fn.node.args.vararg:
             raise Unsupported('too many arguments calling %s' % fn.qualname)
+        bound_ = set()
         for p, a in zip(pos, args):
             env[p] = a
+            bound_.add(p)
         if fn.node.args.vararg:
             env[fn.node.args.vararg.arg] = Tup(tuple(args[len(pos):]), 'tuple')
+        extra_kw = []
+        known_kw = set(pos) | {a.arg for a in fn.node.args.kwonlyargs}
         for k, v in kwargs.items():
-            if k in env:
+            if k in bound_:
                 raise Unsupported('duplicate argument %s calling %s' % (k, fn.qualname))
+            if k not in known_kw and fn.node.args.kwarg:
+                extra_kw.append((Str.lit(k), v))
+                continue
             env[k] = v
+            bound_.add(k)
+        if fn.node.args.kwarg:
+            env[fn.node.args.kwarg.arg] = DictV(tuple(extra_kw))
         defaults = fn.defaults()
         for p in pos + [a.arg for a in fn.node.args.kwonlyargs]:
-            if p not in env:
+            if p not in bound_:
                 if p in defaults:
                     env[p] = self.const_expr(defaults[p])
                 else:
@@ -691,8 +716,13 @@ class Interp:
                             nxt.append(s1)
                             continue
                         for i, s2 in self.ev_index(t.slice, s1):
-                            nxt.append(s2 if s2.raised else s2.effect(
-                                Effect('del', ('item', o, i), (), node.lineno, self.cur.qualname)))
+                            if s2.raised:
+                                nxt.append(s2)
+                                continue
+                            s3 = s2.effect(Effect('del', ('item', o, i), (), node.lineno,
+                                                  self.cur.qualname))
+                            r = self.hooks.stored(self, o, i, None, s3)
+                            nxt.append(r if r is not None else s3)
                 elif isinstance(t, ast.Name):
                     s1 = s.copy()
                     s1.env.pop(t.id, None)
@@ -749,7 +779,11 @@ class Interp:
                 yield Outcome(out.kind, out.value, s2)
 
     def st_FunctionDef(self, node, st):
-        yield Outcome('fall', None, st.bind(node.name, Opaque('localfunc:' + node.name)))
+        if node.decorator_list:
+            yield Outcome('fall', None, st.bind(node.name, Opaque('localfunc:' + node.name)))
+            return
+        yield Outcome('fall', None, st.bind(node.name, self.make_closure(
+            node, 'localfunc:' + node.name, st)))
 
     def st_Try(self, node, st):
         def run_final(out):
@@ -934,6 +968,27 @@ class Interp:
         """Yield states after binding value v to target."""
         if isinstance(tgt, ast.Name):
             yield st.bind(tgt.id, v)
+        elif isinstance(tgt, (ast.Tuple, ast.List)) and any(
+                isinstance(e, ast.Starred) for e in tgt.elts):
+            k = [isinstance(e, ast.Starred) for e in tgt.elts].index(True)
+            after = len(tgt.elts) - k - 1
+            seq = self.literal_items(v)
+            if seq is not None:
+                if len(seq) < k + after:
+                    yield st.raising('ValueError')
+                    return
+                items = list(seq[:k]) + [Tup(tuple(seq[k:len(seq) - after]), 'list')] + \
+                    list(seq[len(seq) - after:])
+            else:
+                items = [self.item_of(v, Sym.const(i)) for i in range(k)] + \
+                    [self.item_of(v, ('slice', Sym.const(k), Sym.const(-after) if after else NONE,
+                                      NONE))] + \
+                    [self.item_of(v, Sym.const(i - after)) for i in range(after)]
+            states = [st]
+            for t, x in zip(tgt.elts, items):
+                t = t.value if isinstance(t, ast.Starred) else t
+                states = [s2 for s1 in states for s2 in self.assign(t, x, s1)]
+            yield from states
         elif isinstance(tgt, (ast.Tuple, ast.List)):
             n = len(tgt.elts)
             if isinstance(v, Tup) and len(v.items) == n:
@@ -965,8 +1020,10 @@ class Interp:
                     yield s
                     continue
                 for i, s2 in self.ev_index(tgt.slice, s):
-                    yield s2.effect(Effect('store', ('item', o, i), (v,), tgt.lineno,
-                                           self.cur.qualname))
+                    s3 = s2.effect(Effect('store', ('item', o, i), (v,), tgt.lineno,
+                                          self.cur.qualname))
+                    r = self.hooks.stored(self, o, i, v, s3)
+                    yield r if r is not None else s3
         else:
             raise Unsupported('assignment target %s' % type(tgt).__name__)
 
@@ -1292,28 +1349,32 @@ class Interp:
             return
         yield Bound(o, attr), s
 
-    def ev_Tuple(self, node, st):
-        if any(isinstance(e, ast.Starred) for e in node.elts):
-            raise Unsupported('starred expression')
-        for vs, s in self.ev_seq(node.elts, st):
+    def _display(self, node, kind, st):
+        plain = [e.value if isinstance(e, ast.Starred) else e for e in node.elts]
+        for vs, s in self.ev_seq(plain, st):
             if s.raised:
                 yield None, s
-            else:
-                yield Tup(tuple(vs), 'tuple'), s
+                continue
+            items = []
+            for e, v in zip(node.elts, vs):
+                if isinstance(e, ast.Starred):
+                    seq = self.literal_items(v)
+                    if seq is None:
+                        raise Unsupported('starred expression over an unknown sequence at %s'
+                                          % self.cur.loc(node))
+                    items.extend(seq)
+                else:
+                    items.append(v)
+            yield Tup(tuple(items), kind), s
+
+    def ev_Tuple(self, node, st):
+        yield from self._display(node, 'tuple', st)
 
     def ev_List(self, node, st):
-        for vs, s in self.ev_seq(node.elts, st):
-            if s.raised:
-                yield None, s
-            else:
-                yield Tup(tuple(vs), 'list'), s
+        yield from self._display(node, 'list', st)
 
     def ev_Set(self, node, st):
-        for vs, s in self.ev_seq(node.elts, st):
-            if s.raised:
-                yield None, s
-            else:
-                yield Tup(tuple(vs), 'set'), s
+        yield from self._display(node, 'set', st)
 
     def ev_Dict(self, node, st):
         if any(k is None for k in node.keys):
@@ -1427,8 +1488,46 @@ class Interp:
             return
         yield Opaque('comp@%d' % node.lineno, (), 'dict'), st
 
+    def ev_NamedExpr(self, node, st):
+        for v, s in self.ev(node.value, st):
+            if s.raised:
+                yield None, s
+            else:
+                yield v, s.bind(node.target.id, v)
+
     def ev_Lambda(self, node, st):
-        yield Opaque('lambda@%d' % node.lineno), st
+        yield self.make_closure(node, 'lambda@%d' % node.lineno, st), st
+
+    def make_closure(self, node, label, st):
+        from .model import FuncInfo
+        if isinstance(node, ast.Lambda):
+            fdef = ast.FunctionDef(name='<%s>' % label, args=node.args,
+                                   body=[ast.Return(value=node.body)], decorator_list=[],
+                                   returns=None, type_comment=None)
+            ast.copy_location(fdef, node)
+            ast.copy_location(fdef.body[0], node.body)
+            fdef.end_lineno = getattr(node, 'end_lineno', node.lineno)
+            body_nodes = [node.body]
+        else:
+            fdef = node
+            body_nodes = node.body
+        a = fdef.args
+        params = {x.arg for x in a.posonlyargs + a.args + a.kwonlyargs}
+        if a.vararg:
+            params.add(a.vararg.arg)
+        if a.kwarg:
+            params.add(a.kwarg.arg)
+        free = []
+        for b in body_nodes:
+            for n in ast.walk(b):
+                if isinstance(n, ast.Name) and isinstance(n.ctx, ast.Load) and n.id not in params \
+                        and n.id in st.env and n.id not in free:
+                    free.append(n.id)
+        if any(isinstance(n, (ast.Yield, ast.YieldFrom)) for b in body_nodes for n in ast.walk(b)):
+            raise Unsupported('generator closure at %s' % self.cur.loc(node))
+        fn = FuncInfo(self.cur.module, None, fdef)
+        fn.qualname = '%s.<%s>' % (self.cur.qualname, label)
+        return Closure(fn, label, tuple((n, st.env[n]) for n in free), self.cur.qualname)
 
     def ev_JoinedStr(self, node, st):
         exprs = [v.value for v in node.values if isinstance(v, ast.FormattedValue)]
@@ -1734,9 +1833,22 @@ class Interp:
     # ---- calls
     LIST_MUTATORS = ('append', 'pop', 'insert', 'extend', 'clear')
 
+    def _kwargs_of(self, node, kvals):
+        """keyword arguments of a call, `**mapping` expanded when its keys are literal."""
+        kwargs = {}
+        for k, v in zip(node.keywords, kvals):
+            if k.arg is not None:
+                kwargs[k.arg] = v
+                continue
+            if isinstance(v, DictV) and all(isinstance(kk, Str) and kk.is_lit()
+                                            for kk, _ in v.items):
+                for kk, vv in v.items:
+                    kwargs[kk.text()] = vv
+                continue
+            raise Unsupported('**kwargs call with an unknown mapping at %s' % self.cur.loc(node))
+        return kwargs
+
     def ev_Call(self, node, st):
-        if any(k.arg is None for k in node.keywords):
-            raise Unsupported('**kwargs call at %s' % self.cur.loc(node))
         if any(isinstance(a, ast.Starred) for a in node.args):
             yield from self._ev_call_starred(node, st)
             return
@@ -1758,7 +1870,7 @@ class Interp:
                     if s3.raised:
                         yield None, s3
                         continue
-                    kwargs = {k.arg: v for k, v in zip(node.keywords, kvals)}
+                    kwargs = self._kwargs_of(node, kvals)
                     yield from self.do_call(f, args, kwargs, s3, node)
 
     def _ev_call_starred(self, node, st):
@@ -1775,17 +1887,18 @@ class Interp:
                 args = []
                 for a, v in zip(node.args, vals):
                     if isinstance(a, ast.Starred):
-                        if not isinstance(v, Tup):
+                        seq = self.literal_items(v)
+                        if seq is None:
                             raise Unsupported('star-args of an unknown sequence at %s'
                                               % self.cur.loc(node))
-                        args.extend(v.items)
+                        args.extend(seq)
                     else:
                         args.append(v)
                 for kvals, s3 in self.ev_seq([k.value for k in node.keywords], s2):
                     if s3.raised:
                         yield None, s3
                         continue
-                    kwargs = {k.arg: v for k, v in zip(node.keywords, kvals)}
+                    kwargs = self._kwargs_of(node, kvals)
                     yield from self.do_call(f, args, kwargs, s3, node)
 
     def _list_mutation(self, node, name, meth, st):
@@ -1829,6 +1942,19 @@ class Interp:
         r = self.hooks.call(self, f, args, kwargs, st, node)
         if r is not None:
             yield from r
+            return
+        if isinstance(f, Closure):
+            if f.fn in self.stack or len(self.stack) > 24:
+                yield Opaque('call:' + f.label, tuple(args)), st.effect(
+                    Effect('call', f, tuple(args), node.lineno, self.cur.qualname))
+                return
+            if self.cur.qualname == f.definer:
+                for n_, v_ in f.captured:
+                    if n_ in st.env and st.env[n_] != v_:
+                        raise Unsupported('closure %s reads %r, which was rebound after the '
+                                          'closure was created (%s)' % (f.label, n_,
+                                                                       self.cur.loc(node)))
+            yield from self.call_function(f.fn, args, kwargs, st, closure_env=dict(f.captured))
             return
         if isinstance(f, FuncRef):
             fn = f.fn
@@ -1934,6 +2060,9 @@ class Interp:
             if isinstance(a, Str) or type_of(a) == 'str':
                 return [(a, st)]
             return [(Str.make(fmt_parts(a, '')), st)]
+        if name == 'format' and len(args) in (1, 2) and (len(args) == 1 or (
+                isinstance(args[1], Str) and args[1].is_lit())):
+            return [(Str.make(fmt_parts(args[0], args[1].text() if len(args) == 2 else '')), st)]
         if name == 'bool' and len(args) == 1:
             return [(to_cond(args[0]), st)]
         if name in ('re.compile', 'frozenset', 'logging.getLogger') and name != 'frozenset':
@@ -2003,6 +2132,52 @@ class Interp:
                 and args[1].is_const() and args[1].const_value().denominator == 1:
             k = int(args[1].const_value())
             return [(args[0] * (Sym.const(2) ** k) if k >= 0 else args[0] / (Sym.const(2) ** (-k)), st)]
+        callable_ = lambda f: isinstance(f, (FuncRef, Closure, Bound, ExtRef, ClassRef))
+        if name == 'map' and len(args) >= 2 and callable_(args[0]) and all(
+                self.literal_items(a) is not None for a in args[1:]):
+            rows = list(zip(*[self.literal_items(a) for a in args[1:]]))
+            return self._map_call(args[0], rows, st, node)
+        if name in ('filter', 'itertools.filterfalse') and len(args) == 2 and \
+                self.literal_items(args[1]) is not None and (callable_(args[0]) or args[0] == NONE):
+            return self._filter_call(args[0], self.literal_items(args[1]), st, node,
+                                     keep=(name == 'filter'))
+        if name == 'functools.reduce' and len(args) in (2, 3) and callable_(args[0]) and \
+                self.literal_items(args[1]) is not None:
+            seq = list(self.literal_items(args[1]))
+            if len(args) == 3:
+                seq = [args[2]] + seq
+            if not seq:
+                return [(None, st.raising('TypeError'))]
+            return self._reduce_call(args[0], seq, st, node)
+        if name == 'itertools.chain' and all(self.literal_items(a) is not None for a in args):
+            out = []
+            for a in args:
+                out.extend(self.literal_items(a))
+            return [(Tup(tuple(out), 'list'), st)]
+        if name == 'itertools.chain.from_iterable' and len(args) == 1 and \
+                self.literal_items(args[0]) is not None and all(
+                    self.literal_items(a) is not None for a in self.literal_items(args[0])):
+            out = []
+            for a in self.literal_items(args[0]):
+                out.extend(self.literal_items(a))
+            return [(Tup(tuple(out), 'list'), st)]
+        if name == 'itertools.compress' and len(args) == 2 and all(
+                self.literal_items(a) is not None for a in args):
+            pairs = list(zip(self.literal_items(args[0]), self.literal_items(args[1])))
+            return self._compress(pairs, st)
+        if name == 'sorted' and len(args) == 1 and not kwargs and \
+                self.literal_items(args[0]) is not None:
+            items = list(self.literal_items(args[0]))
+            if all(isinstance(x, Sym) for x in items):
+                if all(x.is_const() for x in items):
+                    return [(Tup(tuple(sorted(items, key=lambda x: x.const_value())), 'list'), st)]
+                if len(items) == 2:
+                    return [(Tup((mk_func('MIN', *items), mk_func('MAX', *items)), 'list'), st)]
+                if len(items) == 3:
+                    lo, hi = mk_func('MIN', *items), mk_func('MAX', *items)
+                    return [(Tup((lo, items[0] + items[1] + items[2] - lo - hi, hi), 'list'), st)]
+            if all(isinstance(x, Str) and x.is_lit() for x in items):
+                return [(Tup(tuple(sorted(items, key=lambda x: x.text())), 'list'), st)]
         if name in ('enumerate', 'reversed', 'zip', 'map', 'sorted', 'isinstance'):
             return [(Opaque(name, tuple(args)), st)]
         if name in ('packaging.version.parse',) and len(args) == 1:
@@ -2013,6 +2188,53 @@ class Interp:
             return [(Opaque('int.from_bytes', tuple(args) + tuple(sorted(kwargs.items())), 'int'),
                      st)]
         return None
+
+    def _map_call(self, f, rows, st, node):
+        def rec(k, acc, s):
+            if k == len(rows):
+                yield Tup(tuple(acc), 'list'), s
+                return
+            for v, s2 in self.do_call(f, list(rows[k]), {}, s, node):
+                if s2.raised:
+                    yield None, s2
+                else:
+                    yield from rec(k + 1, acc + [v], s2)
+        yield from rec(0, [], st)
+
+    def _filter_call(self, f, items, st, node, keep=True):
+        def rec(k, acc, s):
+            if k == len(items):
+                yield Tup(tuple(acc), 'list'), s
+                return
+            results = [(items[k], s)] if f == NONE else self.do_call(f, [items[k]], {}, s, node)
+            for v, s2 in results:
+                if s2.raised:
+                    yield None, s2
+                    continue
+                for b, s3 in self.branch(to_cond(v), s2):
+                    yield from rec(k + 1, acc + [items[k]] if b == keep else acc, s3)
+        yield from rec(0, [], st)
+
+    def _reduce_call(self, f, seq, st, node):
+        def rec(k, acc, s):
+            if k == len(seq):
+                yield acc, s
+                return
+            for v, s2 in self.do_call(f, [acc, seq[k]], {}, s, node):
+                if s2.raised:
+                    yield None, s2
+                else:
+                    yield from rec(k + 1, v, s2)
+        yield from rec(1, seq[0], st)
+
+    def _compress(self, pairs, st):
+        def rec(k, acc, s):
+            if k == len(pairs):
+                yield Tup(tuple(acc), 'list'), s
+                return
+            for b, s2 in self.branch(to_cond(pairs[k][1]), s):
+                yield from rec(k + 1, acc + [pairs[k][0]] if b else acc, s2)
+        yield from rec(0, [], st)
 
     def call_method(self, obj, name, args, kwargs, st, node):
         """Method call on an abstract value (strings, lists, opaque objects)."""
